@@ -833,6 +833,167 @@ Definition check_bwaits (input output : J) : verdict :=
   | _ => malformed
   end.
 
+(* ---------- OperationContext / run_with_context ----------
+   in = [name, preset retry_count, preset metadata, actions, sym]; keys, values, the name are
+   integers; the start time is the token 0.  model: ctx_new, the preset metadata through
+   ctx_add_metadata, retry_count set as a field, run_with_context on the scripted closure; the
+   model's bindings are sorted by key for comparison.
+   reference: retry_count = preset + number of [0] actions (beyond u32::MAX: panic); the binding
+   of a key is the LAST pair given for it (preset first, then the actions, in order). *)
+Definition dec_pair (j : J) : option (Z * Z) :=
+  match j with JL [JI k; JI v] => Some (k, v) | _ => None end.
+Definition dec_action (j : J) : option (ctx_action Z Z) :=
+  match j with
+  | JL [JI 0] => Some ActIncrement
+  | JL [JI 1; JI k; JI v] => Some (ActAdd k v)
+  | _ => None
+  end.
+Fixpoint insert_by_key (p : Z * Z) (l : list (Z * Z)) : list (Z * Z) :=
+  match l with
+  | [] => [p]
+  | q :: r => if fst p <=? fst q then p :: l else q :: insert_by_key p r
+  end.
+Definition sort_by_key (l : list (Z * Z)) : list (Z * Z) := fold_right insert_by_key [] l.
+Fixpoint pairs_eqb (a b : list (Z * Z)) : bool :=
+  match a, b with
+  | [], [] => true
+  | (k, v) :: a', (k', v') :: b' => (k =? k') && (v =? v') && pairs_eqb a' b'
+  | _, _ => false
+  end.
+Definition action_pair (j : J) : list (Z * Z) :=
+  match j with JL [JI 1; JI k; JI v] => [(k, v)] | _ => [] end.
+Definition is_inc (j : J) : bool := match j with JL [JI 0] => true | _ => false end.
+(* reference bindings: ascending keys 0..63, each with the last value given for it *)
+Definition ref_meta (given : list (Z * Z)) : list (Z * Z) :=
+  flat_map (fun k => match find (fun p => fst p =? k) (rev given) with
+                     | Some p => [p] | None => [] end) (zrange 64).
+
+Definition check_context (input output : J) : verdict :=
+  match input with
+  | JL [JI name; JI preset; JL jmeta; JL jacts; JI sym] =>
+      match omap dec_pair jmeta, omap dec_action jacts with
+      | Some meta, Some acts =>
+          if negb (sym_ok sym && (0 <=? preset) && (preset <=? 4294967295)
+                   && forallb (fun p => (0 <=? fst p) && (fst p <? 64)) meta
+                   && forallb (fun p => (0 <=? fst p) && (fst p <? 64)) (flat_map action_pair jacts))
+          then malformed else
+          let c0 := fold_left (fun c p => ctx_add_metadata Z.eqb c (fst p) (snd p)) meta
+                              (ctx_new name 0) in
+          let c1 := mk_ctx (ctx_name c0) (ctx_start c0) (Z.to_N preset) (ctx_meta c0) in
+          let m := run_with_context c1 (scripted_ctx_op Z.eqb acts (sym_res sym 0)) in
+          let incs := Z.of_nat (List.length (filter is_inc jacts)) in
+          let r_panic := 4294967295 <? preset + incs in
+          match output with
+          | JL [JS tag; JI calls; JI v; JI nm; JI rc; JB same; JL jm] =>
+              match omap dec_pair jm with
+              | Some om =>
+                  if negb (String.eqb tag "ok") then bad_out output else
+                  ok_verdict
+                    (match m with
+                     | Done (ROk (mv, c')) =>
+                         (calls =? 1) && (v =? mv) && (nm =? ctx_name c')
+                         && (rc =? Z.of_N (ctx_retry c')) && Bool.eqb same (ctx_start c' =? 0)
+                         && pairs_eqb om (sort_by_key (ctx_meta c'))
+                     | _ => false
+                     end)
+                    (negb r_panic && (sym =? 0) && (calls =? 1) && (v =? 0) && (nm =? name)
+                     && (rc =? preset + incs) && same
+                     && pairs_eqb om (ref_meta (meta ++ flat_map action_pair jacts)))
+              | None => bad_out output
+              end
+          | JL [JS tag; JI calls; JI cls; JI org] =>
+              if negb (String.eqb tag "err") then bad_out output else
+              ok_verdict
+                (match m with
+                 | Done (RErr k e) => (calls =? 1) && (cls =? kind_code k) && (org =? e)
+                 | _ => false
+                 end)
+                (negb r_panic && negb (sym =? 0) && (calls =? 1) && (cls =? sym) && (org =? 0))
+          | _ =>
+              if is_panic output
+              then ok_verdict (match m with Panic => true | _ => false end) r_panic
+              else malformed
+          end
+      | _, _ => malformed
+      end
+  | _ => malformed
+  end.
+
+(* ---------- ConnectionPool<i64> ----------
+   in = [max_size, ops]; op j: [0, sym] acquire whose `create` answers sym (Ok carries 1000 + j,
+   an error the payload j), [1, x] release, [2] size.  model: pool_new 8 max_size, pool_run.
+   reference: a Vec written as a list whose LAST element is the top (push = append, pop =
+   removelast), bounded by max_size. *)
+Definition dec_pool_op (j : nat) (o : J) : option (pool_op Z Z) :=
+  match o with
+  | JL [JI 0; JI sym] =>
+      if sym_ok sym
+      then Some (PAcquire (if sym =? 0 then ROk (1000 + Z.of_nat j) else RErr (kind_of sym) (Z.of_nat j)))
+      else None
+  | JL [JI 1; JI x] => Some (PRelease x)
+  | JL [JI 2] => Some PSize
+  | _ => None
+  end.
+Fixpoint dec_pool_ops (j : nat) (l : list J) : option (list (pool_op Z Z)) :=
+  match l with
+  | [] => Some []
+  | o :: r => match dec_pool_op j o, dec_pool_ops (S j) r with
+              | Some x, Some xs => Some (x :: xs) | _, _ => None end
+  end.
+Definition code_of_pool_obs (o : pool_obs Z Z) : list Z :=
+  match o with
+  | OAcquired (ROk v) created => [0; 0; v; if created then 1 else 0]
+  | OAcquired (RErr k m) created => [0; kind_code k; m; if created then 1 else 0]
+  | OReleased => [1]
+  | OSize n => [2; Z.of_nat n]
+  end.
+Definition dec_pool_out (o : J) : option (list Z) :=
+  match o with
+  | JL [JI 0; JI c; JI v; JB created] => Some [0; c; v; if created then 1 else 0]
+  | JL [JI 1] => Some [1]
+  | JL [JI 2; JI n] => Some [2; n]
+  | _ => None
+  end.
+Fixpoint ref_pool (mx : Z) (vec : list Z) (j : nat) (ops : list J) : list (list Z) :=
+  match ops with
+  | [] => []
+  | JL [JI 0; JI sym] :: r =>
+      match vec with
+      | [] => [0; sym; (if sym =? 0 then 1000 + Z.of_nat j else Z.of_nat j); 1] :: ref_pool mx vec (S j) r
+      | _ => [0; 0; last vec 0; 0] :: ref_pool mx (removelast vec) (S j) r
+      end
+  | JL [JI 1; JI x] :: r =>
+      [1] :: ref_pool mx (if Z.of_nat (List.length vec) <? mx then vec ++ [x] else vec) (S j) r
+  | _ :: r => [2; Z.of_nat (List.length vec)] :: ref_pool mx vec (S j) r
+  end.
+
+Definition check_pool (input output : J) : verdict :=
+  match input with
+  | JL [JI mx; JL jops] =>
+      match dec_pool_ops 0 jops with
+      | Some ops =>
+          if negb (0 <=? mx) then malformed else
+          let r_panic := 9223372036854775807 <? 8 * mx in
+          match pool_new (T := Z) 8 (Z.to_N mx) with
+          | None => if is_panic output then ok_verdict true r_panic
+                    else match output with JL _ => ok_verdict false false | _ => malformed end
+          | Some p =>
+              match output with
+              | JL obs =>
+                  match omap dec_pool_out obs with
+                  | Some codes =>
+                      ok_verdict (zll_eqb codes (map code_of_pool_obs (fst (pool_run p ops))))
+                                 (negb r_panic && zll_eqb codes (ref_pool mx [] 0 jops))
+                  | None => bad_out output
+                  end
+              | _ => bad_out output
+              end
+          end
+      | None => malformed
+      end
+  | _ => malformed
+  end.
+
 Definition check_parallel (input output : J) : verdict :=
   match input with
   | JL [jsyms] =>
@@ -873,6 +1034,8 @@ Definition check_C18 (kind : string) (input output : J) : verdict :=
   else if String.eqb kind "timeout" then check_timeout input output
   else if String.eqb kind "timing" then check_timing input output
   else if String.eqb kind "waits" then check_waits input output
+  else if String.eqb kind "context" then check_context input output
+  else if String.eqb kind "pool" then check_pool input output
   else if String.eqb kind "bwaits" then check_bwaits input output
   else if String.eqb kind "parallel" then check_parallel input output
   else malformed.
